@@ -809,7 +809,7 @@ impl Property for C16 {
     fn gen(&self, batch: &str, index: u64, seed: u64) -> Case {
         let mut r = Xo::fork(seed, "workload");
         let tape_seed = Xo::fork(seed, "schedule").u64();
-        let big = index % 7 == 3; // sparse larger n
+        let big = index % 5 == 3; // every fifth run of a shuffled batch: n up to 300
         match batch {
             "noshuffle-exhaustive" => {
                 let (n, k) = noshuffle_pairs()[(index / 3) as usize];
@@ -829,7 +829,7 @@ impl Property for C16 {
             }
             "forced-perm-exhaustive" => forced_small().cases[index as usize].clone(),
             _ => {
-                let hi = if big && batch == "prng-shuffle" { 300 } else { 64 };
+                let hi = if big { 300 } else { 64 };
                 let n = r.usize_in(2, hi);
                 let k = if r.chance(0.15) { n } else if r.chance(0.3) { 2 } else { r.usize_in(2, n.min(12)) };
                 let p = r.usize_in(1, 4);
